@@ -2,8 +2,8 @@
   Driver.Proto — line protocol: encoding of strings, options and trees.
   Strings travel as decimal code points joined by '.', "e" = empty, "n" = None.
   Trees travel in prefix notation, tokens separated by single spaces:
-    L <num> <label> <word> <lemma> <morph> <edge> <head> <split> <hb> <bn>
-    N <k>   <label> <word> <lemma> <morph> <edge> <head> <split> <hb> <bn>  child_1 .. child_k
+    L <num> <label> <word> <lemma> <morph> <edge> <head> <split> <hb> <bn> <uid>
+    N <k>   <label> <word> <lemma> <morph> <edge> <head> <split> <hb> <bn> <uid>  child_1 .. child_k
 -/
 import TT.Label
 namespace Driver
@@ -35,14 +35,14 @@ def decON (s : String) : Option (Option Nat) :=
 
 def encFields (f : Fields) : String :=
   " ".intercalate [encS f.label, encOS f.word, encOS f.lemma, encOS f.morph, encOS f.edge,
-    encOB f.head, encOB f.split, encOB f.headBlock, encON f.blockNumber]
+    encOB f.head, encOB f.split, encOB f.headBlock, encON f.blockNumber, encON f.uid]
 
 def decFields : List String → Option (Fields × List String)
-  | l :: w :: le :: m :: e :: h :: sp :: hb :: bn :: rest => do
+  | l :: w :: le :: m :: e :: h :: sp :: hb :: bn :: ui :: rest => do
     let l ← decS l; let w ← decOS w; let le ← decOS le; let m ← decOS m; let e ← decOS e
-    let h ← decOB h; let sp ← decOB sp; let hb ← decOB hb; let bn ← decON bn
+    let h ← decOB h; let sp ← decOB sp; let hb ← decOB hb; let bn ← decON bn; let ui ← decON ui
     pure ({ label := l, word := w, lemma := le, morph := m, edge := e, head := h, split := sp,
-            headBlock := hb, blockNumber := bn }, rest)
+            headBlock := hb, blockNumber := bn, uid := ui }, rest)
   | _ => none
 
 partial def decTreeToks : List String → Option (Tree × List String)
